@@ -1,11 +1,11 @@
 #!/bin/sh
 # usage: run_against_refactor.sh <refactor id> <check id> [args]  -- expects exit 0 (no false alarm)
+# works on a scratch copy of /repo/src (VERIF_REPO_SRC); /repo is not touched
 ID="$1"; CHK="$2"; shift 2
-cd /repo || exit 2
-if [ -n "$(git status --porcelain -- src)" ]; then echo "/repo/src is dirty; refusing"; exit 2; fi
-git apply /verif/refactors/$ID/patch.diff || { echo "patch does not apply"; exit 2; }
-PYTHONPATH=/repo/src /venv/bin/python -m pytest -q -p no:cacheprovider 2>&1 | tail -1
-cd /verif; ./check $CHK --no-evidence "$@" > /tmp/refactor-$ID-$CHK.out 2>&1; rc=$?
-git -C /repo checkout -- .
+D=$(mktemp -d /dev/shm/vsim-ref-XXXXXX) || exit 2
+cp -r /repo/src "$D/src"; mkdir -p "$D/tests"; ln -s /repo/tests/data "$D/tests/data"
+patch -p1 -s -d "$D" -i /verif/refactors/$ID/patch.diff || { echo "patch does not apply"; rm -rf "$D"; exit 2; }
+cd /verif; VERIF_REPO="$D" VERIF_REPO_SRC="$D/src" ./check $CHK --no-evidence "$@" > /tmp/refactor-$ID-$CHK.out 2>&1; rc=$?
+rm -rf "$D"; rm -f /verif/replays/*.json
 echo "$ID vs $CHK: exit=$rc $(grep -m1 'violation: oracle' /tmp/refactor-$ID-$CHK.out | cut -c1-160) $(grep -m1 HARNESS /tmp/refactor-$ID-$CHK.out | cut -c1-160)"
 exit $rc
